@@ -97,11 +97,12 @@ func init() {
 			})
 		})
 	register("C07",
-		"Decides, for all configured periods: a lookup in hit-for-pass state is never queued and never served a response; the marker always gets a period >= 1 (the default when the configured one is <= 0) added to the clock; it lapses through the same expiry test as hits, and that test keeps the entry through its expiry second (expired iff expiredAt < now), so the period is not cut short; the configured period is what the fetcher passes; non-fetcher requests never complete (extend) the entry; hit-for-pass requests are forwarded once and reach the upstream with their headers untouched; the upstream transport puts no cap on connections per host (forwarded requests do not queue behind one another inside net/http). Timed histories are not decided.",
+		"Decides, for all configured periods: a lookup in hit-for-pass state is never queued and never served a response; the marker always gets a period >= 1 (the default when the configured one is <= 0) added to the clock; it lapses through the same expiry test as hits, and that test keeps the entry through its expiry second (expired iff expiredAt < now), so the period is not cut short; the configured period is what the fetcher passes and is kept in seconds (never a time.Duration squeezed into the int); the record is saved only after the entry's final state is set; non-fetcher requests never complete (extend) the entry; hit-for-pass requests are forwarded once and reach the upstream with their headers untouched; the upstream transport puts no cap on connections per host (forwarded requests do not queue behind one another inside net/http). Timed histories are not decided.",
 		nil, func(c *Ctx) {
 			withAnchors(c, func(a *serverAnchors) {
 				ruleLookup(c, a.cacheA, set("state-determined", "registration", "hit-data", "expiry-applied", "expiry-exact", "invariant-expiry", "returned-status"))
-				ruleCompletionPaths(c, a.cacheA, set("completes-on-every-path", "ttl-positive", "expiry-value"))
+				ruleCompletionPaths(c, a.cacheA, set("completes-on-every-path", "ttl-positive", "expiry-value", "persist-final"))
+				rulePeriodUnits(c)
 				ruleCacheMiddleware(c, a, set("ticket-discharge", "hit-for-pass-period", "completion-only-by-fetcher", "forward-once"))
 				ruleProxyMiddleware(c, a, set("withheld-on-fetch", "lifetime-plumbing"))
 				ruleTransportUnbounded(c)
@@ -111,11 +112,12 @@ func init() {
 			})
 		})
 	register("C08",
-		"Decides the safety clauses: a record is read from the store only on the first lookup of an unknown entry; it is adopted all-or-nothing, only as hit/hit-for-pass with a non-zero expiry (hit with a response); pike's own expiry test is applied to the adopted expiry before the state is served; absolute createdAt/expiredAt are what is written and restored; the body of a restored entry is recovered from a stored variant whenever its raw body is empty (a restored record carries an empty, non-nil raw body); each back end's Get, Set and Delete address one and the same record for a key; adoption does not depend on the decoded response's content (empty bodies are valid). The crash-point quantifier (what the store's files contain after a kill) is not applicable to static analysis.",
+		"Decides the safety clauses: a record is read from the store only on the first lookup of an unknown entry; it is adopted all-or-nothing, only as hit/hit-for-pass with a non-zero expiry (hit with a response); pike's own expiry test is applied to the adopted expiry before the state is served; absolute createdAt/expiredAt are what is written and restored, each number written as the field stands and stored as read; nothing changes the entry's state after the call that saves it; the body of a restored entry is recovered from a stored variant whenever its raw body is empty (a restored record carries an empty, non-nil raw body); each back end's Get, Set and Delete address one and the same record for a key; adoption does not depend on the decoded response's content (empty bodies are valid). The crash-point quantifier (what the store's files contain after a kill) is not applicable to static analysis.",
 		nil, func(c *Ctx) {
 			withAnchors(c, func(a *serverAnchors) {
 				ruleLookup(c, a.cacheA, set("state-determined", "load-on-first-lookup", "load-only-when-unknown", "expiry-applied", "invariant-expiry", "hit-data"))
 				ruleStoreLoadAtomic(c, a.cacheA)
+				ruleCompletionPaths(c, a.cacheA, set("persist-final"))
 				ruleEncodedFresh(c)
 				ruleLayout(c)
 				ruleTruncation(c)
@@ -138,6 +140,7 @@ func init() {
 				ruleStoreLoadAtomic(c, a.cacheA)
 				ruleLookup(c, a.cacheA, set("state-determined", "expiry-applied", "invariant-expiry", "invariant-waiters", "no-exit-unknown", "load-only-when-unknown"))
 				ruleCompletionPaths(c, a.cacheA, set("completes-on-every-path"))
+				ruleCacheMiddleware(c, a, set("ticket-discharge"))
 				ruleDrainShape(c, a.cacheA)
 				rulePurge(c, a.cacheA)
 				ruleDecodersNoPanic(c, map[string]bool{"cache": true})
@@ -199,7 +202,7 @@ func init() {
 			})
 		})
 	register("C05",
-		"Decides label/bytes agreement and provenance on every path: each encoding label handed to a client is paired with the stored variant of that coding, the raw body, or a transcode of the raw body; the raw body is RawBody, else gunzip(GzipBody), else brotli-decode(BrBody); upstream bodies are filed under exactly the variant their encoding names and every other documented encoding is decoded by its own codec; Fill writes label, body, status and header of one negotiation; the stored header is a deep copy minus only the fields pike recomputes; pre-compression drops the raw body only when both variants exist; the lz4 destination covers the format's maximum expansion; the five content-coding constants carry the documented wire names; the cache key keeps the request method, so a body-less answer to HEAD is never what a GET is served. Byte-identity of codec round trips is not decidable statically.",
+		"Decides label/bytes agreement and provenance on every path: each encoding label handed to a client is paired with the stored variant of that coding, the raw body, or a transcode of the raw body; the raw body is RawBody, else gunzip(GzipBody), else brotli-decode(BrBody); upstream bodies are filed under exactly the variant their encoding names and every other documented encoding is decoded by its own codec; Fill writes label, body, status and header of one negotiation and, after merging the stored header, sets nothing but Content-Encoding; the stored header is a deep copy minus only the fields pike recomputes; pre-compression drops the raw body only when both variants exist; the lz4 destination covers the format's maximum expansion; the five content-coding constants carry the documented wire names; the cache key keeps the request method, so a body-less answer to HEAD is never what a GET is served. Byte-identity of codec round trips is not decidable statically.",
 		nil, func(c *Ctx) {
 			withAnchors(c, func(a *serverAnchors) {
 				ruleDecisionTable(c)
@@ -215,13 +218,14 @@ func init() {
 				ruleLZ4Bound(c)
 				ruleProxyMiddleware(c, a, set("response-built", "location-edits-order", "proxy-deadline"))
 				ruleCacheMiddleware(c, a, set("hit-serves-stored"))
+				rulePrecompress(c, a)
 				ruleKey(c)
 				ruleResponder(c, a)
 				ruleContextKeys(c, a)
 			})
 		})
 	register("C13",
-		"Decides the negotiation logic completely: the function from (accept-br, accept-gzip, has-br, has-gzip, should-compress) to (label, body provenance) is extracted from the code's paths and compared with the documented decision list on all 32 cells, with determinism; should-compress is false iff all variants are <= the minimum length and otherwise the content-type filter (default when unset) decides; cacheable responses are compressed once with the best-compression profile before publication and nowhere else; each response carries the server's compress settings, and a live update computes those settings from the option exactly as the constructor does (a removed filter falls back to the default). Substring matching of Accept-Encoding tokens and q-values are outside the statement.",
+		"Decides the negotiation logic completely: the function from (accept-br, accept-gzip, has-br, has-gzip, should-compress) to (label, body provenance) is extracted from the code's paths and compared with the documented decision list on all 32 cells, with determinism; should-compress is false iff all variants are <= the minimum length and otherwise the content-type filter (default when unset) decides; cacheable responses are compressed once with the best-compression profile before publication and nowhere else; each response carries the server's compress settings, and a live update computes those settings from the option exactly as the constructor does (a removed filter falls back to the default); the filter is compiled with the parser its validator uses. Substring matching of Accept-Encoding tokens and q-values are outside the statement.",
 		nil, func(c *Ctx) {
 			withAnchors(c, func(a *serverAnchors) {
 				ruleDecisionTable(c)
@@ -233,6 +237,7 @@ func init() {
 				rulePublishedResponse(c, a)
 				ruleRawProvenance(c)
 				ruleProxyMiddleware(c, a, set("server-settings"))
+				ruleValidatorsAgree(c)
 				ruleCtorUpdateAgree(c)
 			})
 		})
@@ -283,7 +288,7 @@ func init() {
 			})
 		})
 	register("C15",
-		"Decides which request state the proxy middleware changes before the upstream call and that each change is undone on every exit after it: on a cold (fetching) request If-None-Match, If-Modified-Since, Range and If-Range are removed or known absent at the upstream call, on every other request they are untouched; every header the middleware removed or overrode (incl. Accept-Encoding) is set back to the value read before; the upstream's Accept-Encoding override is exactly the configured value; the location's configured request headers and query parameters are added next to the client's own (never set over, assigned or deleted); every wildcard of a rewrite rule becomes a capture group; the location's response headers are added to the upstream's header before the response (and its header clone) is built; a lifetime is recorded only for fetchers; the original next handler is restored and run once. What the upstream receives byte for byte is not decided.",
+		"Decides which request state the proxy middleware changes before the upstream call and that each change is undone on every exit after it: on a cold (fetching) request If-None-Match, If-Modified-Since, Range and If-Range are removed or known absent at the upstream call, on every other request they are untouched; every header the middleware removed or overrode (incl. Accept-Encoding) is set back to the value read before; the upstream's Accept-Encoding override is exactly the configured value; the location's configured request headers and query parameters are added next to the client's own (never set over, assigned or deleted); every wildcard of a rewrite rule becomes a capture group and each rule is matched against what the previous rules produced; the location's response headers are added to the upstream's header before the response (and its header clone) is built; a lifetime is recorded only for fetchers; the original next handler is restored and run once. What the upstream receives byte for byte is not decided.",
 		nil, func(c *Ctx) {
 			withAnchors(c, func(a *serverAnchors) {
 				ruleProxyMiddleware(c, a, set("withheld-on-fetch", "restore", "accept-encoding-override", "location-edits-order", "lifetime-plumbing", "next-restored", "response-built", "forward-once", "upstream-error-propagates"))
@@ -296,11 +301,12 @@ func init() {
 				ruleRewriteWildcards(c)
 				ruleRewriteMatch(c)
 				ruleRewriteSource(c)
+				ruleRewriteChain(c)
 				ruleChainOrder(c, a)
 			})
 		})
 	register("C16",
-		"Decides that the two ways a configuration reaches a running object agree: NewServer and Update compute the same value from the option for every field both assign (only the documented restart-only fields are construction-only); main.update applies every section of the configuration just read and then starts the servers; every registry's reset removes names that disappeared (or replaces the collection wholesale); surviving caches are kept; persistent stores are closed only by package store (they are registry singletons that are never re-opened); every configured upstream and compress profile is replaced by one freshly built from the new options; only instances no longer in service are destroyed; removed servers are closed; the proxy resolves the server's locations, and the cache middleware the server's cache, per request (nothing captured when the handler was built); a server is marked as listening only after net.Listen succeeded, so a failed start is retried by the next update; starting the server list visits and starts every registered server; closing a listening server clears that flag and closes its HTTP server and listener; the package-level entry points main.update calls hand the configuration, converted by the package's converter, to the one default registry. Differential behaviour of two live processes and in-flight requests during the swap are not decided.",
+		"Decides that the two ways a configuration reaches a running object agree: NewServer and Update compute the same value from the option for every field both assign (only the documented restart-only fields are construction-only); main.update applies every section of the configuration just read and then starts the servers; every registry's reset removes names that disappeared (or replaces the collection wholesale); surviving caches are kept; persistent stores are closed only by package store (they are registry singletons that are never re-opened); every configured upstream and compress profile is replaced by one freshly built from the new options; only instances no longer in service are destroyed; removed servers are closed; the proxy resolves the server's locations, and the cache middleware the server's cache, per request (nothing captured when the handler was built); a server is marked as listening only after net.Listen succeeded, so a failed start is retried by the next update; starting the server list visits and starts every registered server; closing a listening server clears that flag and closes its HTTP server and listener; the package-level entry points main.update calls hand the configuration, converted by the package's converter, to the one default registry. The file watcher calls back on every write event and leaves its loop only when the watcher is closed. Differential behaviour of two live processes and in-flight requests during the swap are not decided.",
 		nil, func(c *Ctx) {
 			ruleCtorUpdateAgree(c)
 			ruleConverters(c)
@@ -343,7 +349,7 @@ func init() {
 			})
 		})
 	register("C17",
-		"Decides that Validate runs field validation first and checks each of the four reference relations on exactly the (referrer field, referenced name) pair, per referrer, returning its error; that a reference whose run-time lookup can come back nil (the server's cache, the location's upstream) cannot be left empty in an accepted configuration; that the run-time lookups go to the same default registries the reload fills and are made per request with the server's current settings; that each configuration back end reads, writes and watches one and the same location, writes the bytes it is given, and that Read decodes the bytes it read into the configuration it returns; that Write stores the YAML of the configuration only after Validate returned nil and never reports success without writing; that no configuration field is lost or merged by the YAML/JSON field table; that every validate tag is registered and every place that leniently parses a configuration field uses the parser its validator uses. Quoting behaviour of the YAML library is not decided.",
+		"Decides that Validate runs field validation first and checks each of the four reference relations on exactly the (referrer field, referenced name) pair, per referrer, returning its error; that a reference whose run-time lookup can come back nil (the server's cache, the location's upstream) cannot be left empty in an accepted configuration; that the run-time lookups go to the same default registries the reload fills and are made per request with the server's current settings; that each configuration back end reads, writes and watches one and the same location, writes the bytes it is given, and that Read decodes the bytes it read into the configuration it returns; that Write stores the YAML of the configuration only after Validate returned nil and never reports success without writing; that no configuration field is lost or merged by the YAML/JSON field table; that every validate tag is registered and every place that leniently parses a configuration field uses the parser its validator uses (including a value the upstream library parses on pike's behalf). Quoting behaviour of the YAML library is not decided.",
 		nil, func(c *Ctx) {
 			ruleValidateRefs(c)
 			ruleRequiredRefs(c)
@@ -382,6 +388,8 @@ func init() {
 				ruleLockedWrapper(c, a.cacheA)
 				ruleGetOrCreate(c)
 				ruleCompletionPaths(c, a.cacheA, set("locked", "completes-on-every-path"))
+				ruleCacheMiddleware(c, a, set("ticket-discharge"))
+				rulePrecompress(c, a)
 				ruleEntryWriters(c, a.cacheA)
 			})
 		})
